@@ -41,43 +41,57 @@ def paramMapAll (m : List (List Nat)) (nTarget : Nat) (p : Param) : Option Param
         | some w => if w == vm.1 then some acc else none) acc) init
   res.mapM id
 
+def dfltChild : Child := ⟨[], [], 0, none, fun _ => []⟩
+
+/-- a child's terms of size `s`, re-keyed to the parent's coordinates (sums) -/
+def qMapped (parent : List String) (c : Child) (s : Nat) : List (Param × Int) :=
+  (c.terms s).map (fun e => (paramMapSum (childPosToParentPos parent c) parent.length e.1, e.2))
+
+/-- add `sign ·` the product of one entry per child, for every combination -/
+def qCombine (np : Nat) (acc : Terms) (perChild : List (List (Param × Int))) (sign : Int) : Terms :=
+  (cartesian perChild).foldl (fun (acc : Terms) combo =>
+    let k := combo.foldl (fun k e => addParams k e.1) (List.replicate np 0)
+    let v := combo.foldl (fun v e => v * e.2) 1
+    acc.addAt k (sign * v)) acc
+
+/-- `_parent_shift`: the sum of the other children's minimum sizes -/
+def qShift (cs : List Child) (idx : Nat) : Nat := (cs.map (·.minSize)).sum - (cs.getD idx dfltChild).minSize
+
+/-- bounds of `_a`: the flipped child is restricted to sizes `≤ n − 1` -/
+def qBoundsA (cs : List Child) (idx n : Nat) : List Bound :=
+  cs.zipIdx.map (fun (ci : Child × Nat) => if ci.2 == idx then (ci.1.minSize, some (n - 1)) else (ci.1.minSize, ci.1.maxSize))
+
+/-- `_a`: the parent's terms of size `n + shift` minus the contributions in which the flipped child is smaller than `n` -/
+def quotA (parent : List String) (cs : List Child) (idx : Nat) (parentTerms : Nat → Terms) (n : Nat) : Terms :=
+  (if n == 0 then [] else comps ((n + qShift cs idx : Nat) : Int) (qBoundsA cs idx n)).foldl (fun acc sizes =>
+    qCombine parent.length acc ((cs.zip sizes).map (fun cz => qMapped parent cz.1 cz.2)) (-1)) (parentTerms (n + qShift cs idx))
+
+def qOthers (cs : List Child) (idx : Nat) : List Child := (cs.zipIdx.filter (·.2 != idx)).map (·.1)
+
+/-- `_c`: the other children at total size `shift` -/
+def quotC (parent : List String) (cs : List Child) (idx : Nat) : Terms :=
+  (comps (qShift cs idx : Int) ((qOthers cs idx).map (fun c => (c.minSize, c.maxSize)))).foldl (fun acc sizes =>
+    qCombine parent.length acc (((qOthers cs idx).zip sizes).map (fun cz => qMapped parent cz.1 cz.2)) 1) []
+
+/-- `_parent_param_map`: parent coordinates ↦ the flipped child's coordinates (all must be filled, consistently) -/
+def qBack (parent names : List String) (emap : List (String × String)) (b : Terms) : Option Terms :=
+  let p2c : List (List Nat) := parent.map (fun pv =>
+    match emap.find? (·.1 == pv) with
+    | some e => [posOf names e.2]
+    | none => [])
+  b.norm.foldlM (fun (acc : Terms) e => do
+    let k ← paramMapAll p2c names.length e.1
+    match acc.find? (·.1 == k) with
+    | some old => if old.2 == e.2 then pure acc else none
+    | none => pure (acc ++ [(k, e.2)])) []
+
 /-- `Quotient.get_terms`. `cs` are the children of the *original* product rule, `idx` the flipped one;
 `parentTerms` the original parent's provider; the flipped child's own earlier terms come from
 `cs[idx].terms` (sizes < n only). -/
 def quotientTerms (parent : List String) (cs : List Child) (idx : Nat)
-    (parentTerms : Nat → Terms) (n : Nat) : Option Terms := do
-  let flipped := cs.getD idx ⟨[], [], 0, none, fun _ => []⟩
-  if n < flipped.minSize then return []
-  let mins := cs.map (·.minSize)
-  let shift := mins.sum - flipped.minSize
-  let np := parent.length
-  let mapped (c : Child) (s : Nat) : List (Param × Int) :=
-    (c.terms s).map (fun e => (paramMapSum (childPosToParentPos parent c) np e.1, e.2))
-  let combine (acc : Terms) (perChild : List (List (Param × Int))) (sign : Int) : Terms :=
-    (cartesian perChild).foldl (fun (acc : Terms) combo =>
-      let k := combo.foldl (fun k e => addParams k e.1) (List.replicate np 0)
-      let v := combo.foldl (fun v e => v * e.2) 1
-      acc.addAt k (sign * v)) acc
-  -- _a : parent terms minus contributions where the flipped child is smaller than n
-  let boundsA : List Bound := cs.zipIdx.map (fun (ci : Child × Nat) =>
-    if ci.2 == idx then (ci.1.minSize, some (n - 1)) else (ci.1.minSize, ci.1.maxSize))
-  let a0 : Terms := parentTerms (n + shift)
-  let a := (if n == 0 then [] else comps ((n + shift : Nat) : Int) boundsA).foldl (fun acc sizes =>
-    combine acc ((cs.zip sizes).map (fun cz => mapped cz.1 cz.2)) (-1)) a0
+    (parentTerms : Nat → Terms) (n : Nat) : Option Terms :=
+  let flipped := cs.getD idx dfltChild
+  if n < flipped.minSize then some [] else
+  let a := quotA parent cs idx parentTerms n
   if a.any (fun e => e.2 < 0) then none else
-  -- _c : the other children at total size `shift`
-  let others := (cs.zipIdx.filter (·.2 != idx)).map (·.1)
-  let boundsC : List Bound := others.map (fun c => (c.minSize, c.maxSize))
-  let c := (comps (shift : Int) boundsC).foldl (fun acc sizes =>
-    combine acc ((others.zip sizes).map (fun cz => mapped cz.1 cz.2)) 1) []
-  let b ← polyDiv 10000 a.norm c.norm []
-  -- _parent_param_map : parent coordinates ↦ flipped child's coordinates (all must be filled)
-  let p2c : List (List Nat) := parent.map (fun pv =>
-    match flipped.emap.find? (·.1 == pv) with
-    | some e => [posOf flipped.names e.2]
-    | none => [])
-  b.norm.foldlM (fun (acc : Terms) e => do
-    let k ← paramMapAll p2c flipped.names.length e.1
-    match acc.find? (·.1 == k) with
-    | some old => if old.2 == e.2 then pure acc else none
-    | none => pure (acc ++ [(k, e.2)])) []
+  (polyDiv 10000 a.norm (quotC parent cs idx).norm []).bind (qBack parent flipped.names flipped.emap)
